@@ -27,10 +27,13 @@ def segOfJson (j : Json) : Option Segment :=
   | _, _, .ok (.str f), .ok (.arr a) => some (.mixed f.toList (a.toList.filterMap fun x => match x with | .str s => some s.toList | _ => none))
   | _, _, _, _ => none
 
+/-- marker of finding F03-9 (`ParsedPath::parse` filters empty segments out): the only deviation is that they are missing -/
+def emptySegmentDroppedWhy : String := "empty template segments (a trailing slash, `//`) are dropped: the request goes to another path than the template names"
+
 /-- J for one parsed template: the emitted pushes, rendered back, are the template's segments; every
 format template is brace-safe with as many `{}` as arguments; no literal holds a brace. -/
 def judgeParsed (path : List Char) (segs : List Segment) (decl : List (List Char × List Char)) : Bool × String :=
-  let want := (splitOn '/' (splitOnce '?' path).1).filter (fun s => !s.isEmpty)
+  let want := templateSegments path
   let inv (f : List Char) : List Char := match decl.find? (fun p => p.2 == f) with | some p => p.1 | none => f
   let render : Segment → List Char
     | .literal l => l
@@ -41,7 +44,8 @@ def judgeParsed (path : List Char) (segs : List Segment) (decl : List (List Char
     | .param f => !f.isEmpty
     | .mixed fmt ps => formatSafe fmt && countPlaceholders fmt == ps.length && ps.all (!·.isEmpty)
   if !okShape then (false, "a literal holds a brace, or a format template is not brace-safe / has the wrong number of placeholders")
-  else if segs.map render != want then (false, "segments rendered back differ from the template")
+  else if segs.map render != want then
+    (false, if segs.map render == want.filter (fun s => !s.isEmpty) then emptySegmentDroppedWhy else "segments rendered back differ from the template")
   else (true, "")
 
 def parse : Handler := fun req => do
@@ -67,7 +71,7 @@ def parse : Handler := fun req => do
       else
         let (ok, why) := judgeParsed path segs (if injective then decl else [])
         -- a well-formed template must be accepted; an accepted one must be faithful
-        if ok || !injective then verdict true [] else verdict false [] why
+        if ok || !injective then verdict true [] else verdict false (if why == emptySegmentDroppedWhy then ["KnownEmptySegmentDropped"] else []) why
     | .error _ =>
       -- rejected: fine only if the template really has unbalanced/nested/empty braces (the model's tokenizer is the spec here)
       match m with
